@@ -6,7 +6,7 @@
    transports (gen/Gen_transport.v).  Every theorem is over ALL label sequences.
    Partial: the asyncio transports' own buffering and the FIFO order of Event waiters are
    CPython's; per-task order follows from a task awaiting each send before the next. *)
-From AV Require Import Base Gen_transport WriteGate WriteGateProofs.
+From AV Require Import Base Gen_transport WriteGate WriteGateProofs WriteGateCode WriteGateCodeProofs.
 
 Theorem C15_probe : write_rechecks_gate = true.
 Proof. reflexivity. Qed.
@@ -58,6 +58,47 @@ Example C15_ex :
   wire g = [1; 2; 3; 4]%N /\ blind g = [] /\ waiting g = [] /\ released g = [].
 Proof. vm_compute. repeat split. Qed.
 
+(* pause_writing, resume_writing, connection_lost and the coroutine write() of the transports are translated from
+   the Python source statement by statement on every run (gen/Gen_transport.v: pause_code, resume_code, lost_code,
+   write_code; both transport classes give the same lists); nothing was left untranslated.  With asyncio.Event's
+   meaning written down once (model/WriteGateCode.v: set() wakes every waiter, a woken waiter continues after its
+   wait() whatever the flag is by then) the model's labels are the runs of those statements ... *)
+Theorem C15_transport_code_known :
+  wknown 4 pause_code && wknown 4 resume_code && wknown 4 lost_code && wknown 4 write_code && transports_agree = true.
+Proof. exact transport_code_known. Qed.
+
+Theorem C15_pause_from_source : forall g, callback pause_code g = Some (wstep g Pause).
+Proof. exact pause_from_source. Qed.
+
+Theorem C15_resume_from_source : forall g, callback resume_code g = Some (wstep g Resume).
+Proof. exact resume_from_source. Qed.
+
+Theorem C15_lost_from_source : forall g, (can_send g = true -> waiting g = []) ->
+  callback lost_code (set_closing g) = Some (wstep g Lost).
+Proof. exact lost_from_source. Qed.
+
+(* ... a call of write() is Send, a woken writer continuing is Run - and wherever a writer blocks it continues at
+   the same place (the loop test), so the model needs no program counter per writer *)
+Theorem C15_send_from_source : forall g w, known g w = false ->
+  match write_call g w with
+  | WDone g' => wstep g (Send w) = g'
+  | WBlocked g' k => wstep g (Send w) = g' /\ k = resume_point
+  | WStuck => False
+  end.
+Proof. exact send_from_source. Qed.
+
+Theorem C15_run_from_source : forall g w, memN w (released g) = true ->
+  match write_resume (take_released g w) w resume_point with
+  | WDone g' => wstep g (Run w) = g'
+  | WBlocked g' k => wstep g (Run w) = g' /\ k = resume_point
+  | WStuck => False
+  end.
+Proof. exact run_from_source. Qed.
+
+(* ... so over EVERY label sequence the model is the run of the source's statements *)
+Theorem C15_model_from_source : forall ls, wrun_src ls = wrun ls.
+Proof. exact wrun_from_source. Qed.
+
 Print Assumptions C15_probe.
 Print Assumptions C15_probe_whole.
 Print Assumptions C15_silent_while_full.
@@ -66,3 +107,10 @@ Print Assumptions C15_whole_at_most_once.
 Print Assumptions C15_resume_releases.
 Print Assumptions C15_stall_aborts.
 Print Assumptions C15_lost_releases_writers.
+Print Assumptions C15_transport_code_known.
+Print Assumptions C15_pause_from_source.
+Print Assumptions C15_resume_from_source.
+Print Assumptions C15_lost_from_source.
+Print Assumptions C15_send_from_source.
+Print Assumptions C15_run_from_source.
+Print Assumptions C15_model_from_source.
